@@ -12,10 +12,10 @@ import lxml.html
 
 import gen
 from common import Case, b, coq_string, lst, nat
-from pm import SchemaInfo, err_class
+from pm import SchemaInfo, attrs_term, cps, err_class
 from prosemirror.model import Fragment, Mark, Node
 from prosemirror.model.from_dom import DOMParser, ParseContext, ParseOptions, from_html
-from prosemirror.model.to_dom import DOMSerializer
+from prosemirror.model.to_dom import DocumentFragment, DOMSerializer, Element
 from prosemirror.schema.basic import schema as basic_schema
 from prosemirror.test_builder import test_schema
 
@@ -201,6 +201,52 @@ def roundtrip_case(name, doc: Node):
                 schema=info.schema_term(), kind=f"roundtrip/{name}", key=("rt", name, str(doc)))
 
 
+def serialize_case(name, doc: Node, unrendered):
+    """serialize_fragment through renderers that only tag what they render (node / mark registry index): the algorithm
+    that decides which wrapper elements stay open is the library's, the per-node rendering is trivial"""
+    info = info_for(name)
+    sc = SCHEMAS[name]
+    reg = []
+
+    def node_r(node):
+        reg.append(node)
+        k = str(len(reg) - 1)
+        return ["l", {"i": k}] if node.is_leaf or node.is_text else ["n", {"i": k}, 0]
+
+    def mark_r(mark, _inline):
+        reg.append(mark)
+        return ["m", {"i": str(len(reg) - 1)}, 0]
+    nodes = {n: node_r for n in sc.nodes}
+    marks = {m: mark_r for m in sc.marks if m not in unrendered}
+    nonspanning = [m for m, t in sc.marks.items() if t.spec.get("spanning") is False]
+
+    def conv(x):
+        if isinstance(x, str):
+            raise ValueError("string child")
+        o = reg[int(x.attrs["i"])]
+        kids = lst(conv(c) for c in x.children)
+        if x.name == "m":
+            return f"(DMark {info.mark(o)} {kids})"
+        if x.name == "n":
+            return f"(DElem {info.ty(o.type)} {attrs_term(o.attrs)} {kids})"
+        if o.is_text:
+            return f"(DText {cps(o.text)})"
+        return f"(DLeafN {info.ty(o.type)} {attrs_term(o.attrs)})"
+    r = guarded(lambda: DOMSerializer(nodes, marks).serialize_fragment(doc.content))
+    if r[0] == "ok":
+        try:
+            term = f"(Ok {lst(conv(c) for c in r[1].children)})"
+        except Exception as e:  # noqa: BLE001
+            term = "(Err ErrInternal)"
+    else:
+        term = "(Err ErrInternal)"
+    coq = (f"CSerialize @S@ {lst(nat(info.midx[m]) for m in unrendered)} {lst(nat(info.midx[m]) for m in nonspanning)} "
+           f"{info.frag(doc.content)} {term}")
+    return Case(coq=coq, desc={"case": "serialize", "schema": name, "doc": doc.to_json(), "unrendered": unrendered,
+                               "result": r[1] if r[0] != "ok" else "tree"},
+                schema=info.schema_term(), kind=f"serialize/{name}", key=("ser", name, str(doc), tuple(unrendered)))
+
+
 # ---------------------------------------------------------------- context expressions
 def context_case(rng, name):
     info = info_for(name)
@@ -267,11 +313,20 @@ def generate(rng: random.Random, tier: str):
             yield c
         for _ in range(120 if quick else 2500):
             yield context_case(rng, name)
+    # the serializer's mark nesting (appended stream): serialize_fragment with tagging renderers, the tree of wrappers it
+    # built compared with Model.ToDom.ser_fragment (theorem C19_serializer_wraps_each_node_in_its_marks)
+    for name in SCHEMAS:
+        g = RTGen(SCHEMAS[name], rng)
+        for _ in range(40 if quick else 800):
+            doc = g.doc(rng.randint(2, 4)) if rng.random() < 0.6 else spaced_doc(rng, SCHEMAS[name], g)
+            unrendered = [m for m in SCHEMAS[name].marks if rng.random() < 0.15]
+            yield serialize_case(name, doc, unrendered)
     # comments and processing instructions (appended stream): nodes of the DOM that are neither elements nor text
     for name in SCHEMAS:
         fixed = ["<p>a<!-- c -->b</p>", "<!-- x --><p>q</p>", "<p>a</p><!-- t -->tail", "<ul><!-- c --><li>x</li><!-- d --></ul>",
                  "<!-- only -->", "<ol><!-- c --></ol>", "<pre>a<!-- c -->b</pre>", "<p><b>x<!-- c --></b>y</p>", "<?pi x?><p>z</p>",
-                 "<ul><li>a</li><!-- between --><ul><li>b</li></ul></ul>", "<table><!-- c --><tr><td>x<!-- d --></td></tr></table>"]
+                 "<ul><li>a</li><!-- between --><ul><li>b</li></ul></ul>", "<table><!-- c --><tr><td>x<!-- d --></td></tr></table>",
+                 "<p>a<!-- c --> b</p>", "<h3><head>x<!----></head> lead</h3>", "<p><b>a</b><!-- c -->\n b</p>"]
         for h in fixed:
             yield parse_case(name, h)
         for _ in range(40 if quick else 800):
